@@ -15,7 +15,7 @@ from .c02 import run_steps, AROMATIC_REJECT
 
 ID = 'C12'
 RULE = ('cases: C01 strings, multi-level strings and ambiguous fragment sets (incl. shared atoms). Per case: node '
-        'keys are 0..n-1 in order, the fragid sequence is non-decreasing, without shared atoms each coarse node\'s '
+        'keys are exactly 0..n-1, the fragid sequence is non-decreasing, without shared atoms each coarse node\'s '
         'atoms (H included) form one contiguous block in base-graph order, atom names are element+index and unique '
         'within each coarse node; equal canonical dumps (coarse and fine graph with all attributes, nested fragment '
         'graphs; nodes sorted by key) for: a repeated call, reversed / rotated / randomly permuted fragment definitions in '
